@@ -1,6 +1,7 @@
 package proxy
 
 import (
+	"bufio"
 	"bytes"
 	gkm "github.com/go-kit/kit/metrics"
 	"io"
@@ -76,22 +77,33 @@ func newWSHandler(host string, dial dialFunc, conn gkm.Gauge) http.Handler {
 		}
 
 		b = b[:n]
-		if m, err := in.Write(b); err != nil || n != m {
-			log.Printf("[ERROR] Error sending handshake for %s: %s", r.URL, err)
-			http.Error(w, "error sending handshake", http.StatusInternalServerError)
-			return
-		}
+		out.SetReadDeadline(time.Time{})
 
 		// https://tools.ietf.org/html/rfc6455#section-1.3
 		// The websocket server must respond with HTTP/1.1 101 on successful handshake
 		if !bytes.HasPrefix(b, []byte("HTTP/1.1 101")) {
-			firstLine := strings.SplitN(string(b), "\n", 1)
-			log.Printf("[INFO] Websocket upgrade failed for %s: %s", r.URL, firstLine)
-			http.Error(w, "websocket upgrade failed", http.StatusInternalServerError)
+			firstLine := strings.SplitN(string(b), "\n", 2)[0]
+			log.Printf("[INFO] Websocket upgrade failed for %s: %s", r.URL, strings.TrimSpace(firstLine))
+			// The upstream answered with an ordinary HTTP response of which
+			// only the beginning has been read so far: pass all of it on.
+			resp, err := http.ReadResponse(bufio.NewReader(io.MultiReader(bytes.NewReader(b), out)), r)
+			if err != nil {
+				log.Printf("[ERROR] Error reading handshake response for %s: %s", r.URL, err)
+				in.Write(b)
+				return
+			}
+			defer resp.Body.Close()
+			resp.Close = true // the client connection is closed below
+			if err := resp.Write(in); err != nil {
+				log.Printf("[ERROR] Error sending handshake response for %s: %s", r.URL, err)
+			}
 			return
 		}
 
-		out.SetReadDeadline(time.Time{})
+		if m, err := in.Write(b); err != nil || n != m {
+			log.Printf("[ERROR] Error sending handshake for %s: %s", r.URL, err)
+			return
+		}
 
 		// When one side finishes sending, pass the end of its stream on
 		// and keep the other direction running until it finishes as well.
